@@ -12,3 +12,4 @@ open HmcVerif.C11
 #print axioms content_is_appended
 #print axioms closed_nothing_pending
 #print axioms parallel_without_consent_refused
+#print axioms two_writers_independent
